@@ -292,12 +292,17 @@ class Gen:
                     # "try again with other arguments when it fails": the
                     # first call uses arguments that change from build to
                     # build, the retry uses the previous build's arguments
-                    a, b = rng.sample([1, 2, 'x', [1], {'k': 1}, None], 2)
-                    st[3] = [{'__step__': [a, b]}]
-                    st[4] = {}
-                    st[6] = True
-                    retry = list(st)
-                    retry[3] = [{'__step__': [b, a]}]
+                    if rng.random() < 0.5:
+                        a, b = rng.sample([1, 2, 'x', [1], {'k': 1}, None], 2)
+                        st[3] = [{'__step__': [a, b]}]
+                        st[4] = {}
+                        st[6] = True
+                        retry = list(st)
+                        retry[3] = [{'__step__': [b, a]}]
+                    else:
+                        # "just try again": the very same call
+                        st[6] = True
+                        retry = list(st)
                     body.append(['if', ['lasterr'], [retry], []])
             elif k == 'sb':
                 cands = [f for f in ctx['subs'] if f[0] > fid_index]
